@@ -35,7 +35,7 @@ def _corpus_groups():
     if _groups is None:
         ix = model.corpus_index()
         g = {"all": [], "shimmed": [], "plain": [], "nd3": [], "d0": [], "d1": [], "d1num": [],
-             "d1plain": [], "d2": [], "ca0": [], "multinum": [], "catdate": [], "numeric": [], "bysig": {}}
+             "d1plain": [], "d2": [], "ca0": [], "multinum": [], "catdate": [], "numeric": [], "mrins": [], "bysig": {}}
         for name in sorted(ix):
             m = ix[name]
             g["all"].append(name)
@@ -44,6 +44,8 @@ def _corpus_groups():
                 g["shimmed"].append(name)
             else:
                 g["plain"].append(name)
+            if any(e.get("derived") for d in m["dims"] for e in d["elements"]):
+                g["mrins"].append(name)
             if "BINNED_NUMERIC" in types:
                 g["numeric"].append(name)
             if "CAT_DATE" in types[-2:]:
@@ -81,6 +83,8 @@ def _pick_corpus(rnd, knobs, group=None):
         pool = g["catdate"]  # the only dimensions that can actually be smoothed
     elif rnd.random() < 0.05:
         pool = g["numeric"]  # binned-numeric dimensions: labels formatted from numbers
+    elif rnd.random() < 0.05:
+        pool = g["mrins"]  # multiple response with derived (inserted) sub-variables
     elif rnd.random() < knobs["shim_bias"]:
         pool = g["shimmed"]
     else:
